@@ -2,7 +2,7 @@
 from pyvc import npmodel as N
 from pyvc import spec as S
 from pyvc import sym
-from pyvc.contract import Contract, register
+from pyvc.contract import Contract, register, spec_canary
 from pyvc.sym import F, NAN, And_, Not_, ite
 
 
@@ -19,6 +19,16 @@ class HC_damp(Contract):
         keep = N.logical_and(N.less(damp, max_damp), N.greater(damp, 0))
         return (N.where(keep, damp, NAN), N.astype(keep, "int"))
 
+    def _wrong_le(self, c, damp, max_damp):     # canary: zero damping accepted
+        keep = N.logical_and(N.less(damp, max_damp), N.greater_equal(damp, 0))
+        return (N.where(keep, damp, NAN), N.astype(keep, "int"))
+
+    def _wrong_nomask(self, c, damp, max_damp):  # canary: table not blanked
+        keep = N.logical_and(N.less(damp, max_damp), N.greater(damp, 0))
+        return (damp, N.astype(keep, "int"))
+
+    canaries = {"accepts xi == 0": spec_canary(_wrong_le), "table not blanked": spec_canary(_wrong_nomask)}
+
 
 @register
 class HC_cov(Contract):
@@ -32,6 +42,12 @@ class HC_cov(Contract):
         """C09: frequency covariance < cov_max; one NaN pattern (mask 0 <=> blanked)."""
         keep = N.less(Fn_cov, max_cov)
         return (N.where(keep, Fn_cov, NAN), N.astype(keep, "int"))
+
+    def _wrong_zero(self, c, Fn_cov, max_cov):   # canary: the old behaviour (cov == 0 blanked, mask 1)
+        keep = N.less(Fn_cov, max_cov)
+        return (N.where(N.logical_and(keep, N.not_equal(Fn_cov, 0)), Fn_cov, NAN), N.astype(keep, "int"))
+
+    canaries = {"cov == 0 blanked but mask 1": spec_canary(_wrong_zero)}
 
 
 # ----------------------------------------------------------------------------------
